@@ -530,11 +530,13 @@ func (l *PartitionLog) Read(ctx context.Context, offset int64, maxBytes int32) (
 		// Hold l.mu across both fallbacks so an in-flight flush cannot move
 		// batches from the buffer into flushingBatches (or commit a segment)
 		// between the two checks.
-		body := l.buffer.RecordsFrom(offset, maxBytes)
-		fromFlushWindow := false
+		// The in-flight (mid-flush) batches hold lower offsets than the live
+		// buffer, so they are consulted first: asking the buffer first would
+		// skip them whenever newer batches have been appended meanwhile.
+		body := recordsFromBatches(l.flushingBatches, offset, maxBytes)
+		fromFlushWindow := len(body) > 0
 		if len(body) == 0 {
-			body = recordsFromBatches(l.flushingBatches, offset, maxBytes)
-			fromFlushWindow = len(body) > 0
+			body = l.buffer.RecordsFrom(offset, maxBytes)
 		}
 		l.mu.Unlock()
 		if len(body) > 0 {
